@@ -207,17 +207,19 @@ func checkParse(c ParseCase) error {
 		}
 	}
 	if c.Dest == 2 {
-		// The storage comparison is restricted to names on which ASCII and
-		// Unicode lower-casing agree (no non-ASCII cased letters, no invalid
-		// UTF-8): the statement does not say which case-insensitivity is
-		// meant, and within this domain both readings coincide.
+		// The statement says "case-insensitively" without saying which
+		// folding is meant.  The storage comparison is therefore restricted
+		// to sets of names on which ASCII-only and Unicode lower-casing
+		// induce the same equivalence (two names are equal under one iff
+		// they are under the other), and only ASCII-case variants of stored
+		// spellings are queried: within this domain both readings coincide.
+		var all []string
 		for _, e := range wantAdds {
-			for _, n := range e.Names {
-				if strings.ToLower(n) != model.ASCIILower(n) {
-					c.Dest = 1
-					vp.Class("parse:dest-2-downgraded-to-1(name with non-ASCII case or invalid UTF-8)")
-				}
-			}
+			all = append(all, e.Names...)
+		}
+		if !foldingsAgree(all) {
+			c.Dest = 1
+			vp.Class("parse:dest-2-downgraded-to-1(names on which ASCII and Unicode case folding disagree)")
 		}
 	}
 	classify(c, data, want, fr)
@@ -437,12 +439,19 @@ func (m *storageModel) compare(st *hostsfile.DefaultStorage) error {
 		}
 	}
 	for low, want := range m.addrs {
-		for _, spelling := range []string{low, strings.ToUpper(low), mixCase(low)} {
-			if model.ASCIILower(spelling) != low {
-				continue // non-ASCII letters: not re-spelt
-			}
+		// ASCII-case variants only: both readings of "case-insensitively"
+		// agree that these name the same host.
+		for _, spelling := range []string{low, asciiUpper(low), mixCase(low)} {
 			if got := st.ByName(spelling); !slices.Equal(got, want) {
 				return fmt.Errorf("ByName(%q) = %v, want %v", spelling, got, want)
+			}
+		}
+	}
+	for a, spellings := range m.names {
+		// The exact stored spellings must find their address.
+		for _, n := range spellings {
+			if !slices.Contains(st.ByName(n), a) {
+				return fmt.Errorf("ByAddr(%v) lists %q, but ByName(%q) = %v does not contain the address", a, n, n, st.ByName(n))
 			}
 		}
 	}
@@ -480,13 +489,24 @@ func (m *storageModel) compare(st *hostsfile.DefaultStorage) error {
 			return false
 		}
 		seenN[h] = true
-		want, ok := m.addrs[model.ASCIILower(h)]
+		// The key may be lower-cased with either folding; it must be a case
+		// variant of exactly one model key.
+		var want []netip.Addr
+		ok := false
+		for k, v := range m.addrs {
+			if k == model.ASCIILower(h) || strings.ToLower(k) == strings.ToLower(h) {
+				want, ok = v, true
+				break
+			}
+		}
 		if !ok || !slices.Equal(addrs, want) {
 			rerr = fmt.Errorf("RangeAddrs yielded %q -> %v, model has %v (present=%v)", h, addrs, want, ok)
 			return false
 		}
 		for _, a := range addrs {
-			if !slices.ContainsFunc(st.ByAddr(a), func(x string) bool { return model.ASCIILower(x) == model.ASCIILower(h) }) {
+			if !slices.ContainsFunc(st.ByAddr(a), func(x string) bool {
+				return model.ASCIILower(x) == model.ASCIILower(h) || strings.ToLower(x) == strings.ToLower(h)
+			}) {
 				rerr = fmt.Errorf("indexes disagree: %q has address %v, but ByAddr(%v) = %q", h, a, a, st.ByAddr(a))
 				return false
 			}
@@ -500,6 +520,34 @@ func (m *storageModel) compare(st *hostsfile.DefaultStorage) error {
 		return fmt.Errorf("RangeAddrs visited %d names, model has %d", len(seenN), len(m.addrs))
 	}
 	return nil
+}
+
+// foldingsAgree reports whether ASCII-only and Unicode lower-casing induce the
+// same equivalence on names.
+func foldingsAgree(names []string) bool {
+	byASCII := map[string]string{}
+	byUnicode := map[string]string{}
+	for _, n := range names {
+		a, u := model.ASCIILower(n), strings.ToLower(n)
+		if prev, ok := byASCII[a]; ok && prev != u {
+			return false
+		}
+		if prev, ok := byUnicode[u]; ok && prev != a {
+			return false
+		}
+		byASCII[a], byUnicode[u] = u, a
+	}
+	return true
+}
+
+func asciiUpper(s string) string {
+	b := []byte(s)
+	for i := range b {
+		if b[i] >= 'a' && b[i] <= 'z' {
+			b[i] -= 32
+		}
+	}
+	return string(b)
 }
 
 func mixCase(s string) string {
@@ -528,7 +576,10 @@ var (
 		netip.MustParseAddr("1.2.3.4"), netip.MustParseAddr("0.0.0.1"), netip.MustParseAddr("::1"),
 		netip.MustParseAddr("fe80::1%eth0"), netip.MustParseAddr("::ffff:1.2.3.4"), netip.MustParseAddr("fe80::1"), {},
 	}
-	namePool = []string{"host", "HOST", "Host", "host.example", "Host.Example", "HOST.EXAMPLE", "a", "A", "b", "пример.рф", "例え.jp", "x-y.z", "X-Y.Z", "localhost"}
+	namePool = []string{"host", "HOST", "Host", "host.example", "Host.Example", "HOST.EXAMPLE", "a", "A", "b", "пример.рф", "例え.jp", "x-y.z", "X-Y.Z", "localhost",
+		// Non-ASCII cased letters: only ASCII-case variants of one another,
+		// so ASCII and Unicode folding agree on the whole pool.
+		"Ünï.example", "ÜNï.EXAMPLE", "ПРИМЕР.com", "ПРИМЕР.COM", "Straße.example"}
 )
 
 func checkStorage(c StorageCase) error {
